@@ -124,4 +124,33 @@ def run_case(spec):
     got_total = sum(float(np.asarray(c.vals)[0]) for pop in r.model.pops for c in pop.comps if not isinstance(c, (SourceCompartment, SinkCompartment)))
     if spec.get("tag") != "combined" and abs(got_total - init_total) > 1e-8 * max(1.0, init_total):
         vs.append(V("initial-flush-total", f"total after the initial flush is {got_total!r}, initial conditions sum to {init_total!r}", None))
-    return dict(states=T, transitions=T - 1, traces=1, nontrivial=received, violations=vs[:6], counters={"tag_" + spec.get("tag", "?"): 1, "jinit_cases": int(bool(g and g.get("jinit")))})
+    extra = {}
+    if g and g.get("jinit") and g.get("psrc") == "const" and spec.get("tag") == "junctions":
+        # second route for people who start inside a junction: an explicit initial state (Initialization) instead of the databook.
+        # The databook gets empty junctions, the saved state of index 0 gets the junction contents: both must give the same run.
+        import copy
+        import sciris as sc
+
+        spec0 = copy.deepcopy(spec)
+        jv = {}
+        for c in spec0["comps"]:
+            if c.get("kind") == "junc" and c.get("init"):
+                jv[c["name"]] = c.pop("init")
+                c["default"] = 0
+        w0, r0 = run_spec(spec0)
+        ps = sc.dcp(w0.parset)
+        ps.set_initialization(r0, float(r0.model.t[0]))
+        for pop in r0.model.pops:
+            for name, v in jv.items():
+                ps.initialization.values[(name, pop.name)] = float(v)
+        r1 = w0.P.run_sim(ps, store_results=False)
+        from mc.props.c09 import arrays
+
+        a0, a1 = arrays(r), arrays(r1)
+        for k, v0 in a0.items():
+            if not np.allclose(v0, a1[k], rtol=1e-9, atol=1e-12, equal_nan=True):
+                i = int(np.argmax(~np.isclose(v0, a1[k], rtol=1e-9, atol=1e-12, equal_nan=True).reshape(v0.shape[0], -1).all(axis=1)))
+                vs.append(V("initial-flush-from-explicit-state", f"people placed in the junction(s) {sorted(jv)} through an explicit initial state: {k} at index {i} is {np.asarray(a1[k][i]).tolist()!r}, through the databook {np.asarray(v0[i]).tolist()!r}", None))
+                break
+        extra["explicit_state_cases"] = 1
+    return dict(states=T, transitions=T - 1, traces=1, nontrivial=received, violations=vs[:6], counters={"tag_" + spec.get("tag", "?"): 1, "jinit_cases": int(bool(g and g.get("jinit"))), **extra})
